@@ -275,7 +275,7 @@ theorem loop2_eq (poly cws : List Nat) (n : Nat) (hn : 0 < n) (hpl : poly.length
   rfl
 
 /-- non-vacuity of `Bytes`: the standard's worked example "123456" -/
-example : Bytes [142, 164, 186] := by decide
+example : Bytes [142, 164, 186] := by unfold Bytes; decide
 
 theorem findTable_lt (n t : Nat) (h : DMEnc.findTable n DMRef.parityLengths 0 = some t) :
     t < 16 ∧ DMRef.parityLengths.getD t 0 = n := by
